@@ -223,983 +223,1154 @@ Cancel , } // c174
 }
     // c176
 ")).
-Eval vm_compute in ("<<<M382>>>" ++ check (runes_of_ascii "options {
-    StringPrefixLenType = u16;
-    ArrayPrefixLenType = u16;
-}
-
-packet SampleBinary {
-    uint16 MsgType `" ++ [28040; 24687; 31867; 22411]%N ++ runes_of_ascii "`,
-    u16 BodyLenght @lengthOf(Body) `" ++ [28040; 24687; 20307; 38271; 24230]%N ++ runes_of_ascii "`,
-    match MsgType as Body {
-        1 : Logon,
-        2 : Logout,
-        3 : Heartbeat,
-        4 : RiskControlRequest,
-        5 : RiskControlResponse,
-    },
-    @calculatedFrom(""CRC32"")
-    u32 Ckecksum `" ++ [26657; 39564; 21644]%N ++ runes_of_ascii "`,
-}
-
-packet Logon {
-    @leftPad('0')
-    char[10] UserName `" ++ [29992; 25143; 21517]%N ++ runes_of_ascii "`,
-    string Password `" ++ [23494; 30721]%N ++ runes_of_ascii "`,
-    uint64 ClientId `" ++ [23458; 25143; 31471]%N ++ runes_of_ascii "ID`,
-    u16 HeartbeatInterval `" ++ [24515; 36339; 38388; 38548]%N ++ runes_of_ascii "`,
-}
-
-packet Logout {
-    @rightPad('0')
-    char[10] UserName `" ++ [29992; 25143; 21517]%N ++ runes_of_ascii "`,
-    uint64 ClientId `" ++ [23458; 25143; 31471]%N ++ runes_of_ascii "ID`,
-}
-
-packet Heartbeat {
-}
-
-packet RiskControlRequest {
-    string UniqueOrderId `" ++ [21807; 19968; 35746; 21333; 21495]%N ++ runes_of_ascii "`,
-    char[16] ClOrdID `" ++ [23458; 25143; 35746; 21333; 21495]%N ++ runes_of_ascii "`,
-    char[3] MarketID `" ++ [24066; 22330]%N ++ runes_of_ascii "id`,
-    char[12] SecurityID `" ++ [35777; 21048; 20195; 30721]%N ++ runes_of_ascii "`,
-    char Side `" ++ [20080; 21334; 26041; 21521]%N ++ runes_of_ascii "`,
-    char OrderType `" ++ [35746; 21333; 31867; 22411]%N ++ runes_of_ascii "`,
-    u64 Price `" ++ [20215; 26684]%N ++ runes_of_ascii "`,
-    u32 Qty `" ++ [25968; 37327]%N ++ runes_of_ascii "`,
-    repeat string ExtraInfo `" ++ [38468; 21152; 20449; 24687]%N ++ runes_of_ascii "`,
-    repeat SubOrder {
-        char[16] ClOrdID `" ++ [23376; 35746; 21333; 21495]%N ++ runes_of_ascii "`,
-        u64 Price `" ++ [23376; 35746; 21333; 20215; 26684]%N ++ runes_of_ascii "`,
-        u32 Qty `" ++ [23376; 35746; 21333; 25968; 37327]%N ++ runes_of_ascii "`,
-    },
-}
-
-packet RiskControlResponse {
-    string UniqueOrderId `" ++ [21807; 19968; 35746; 21333; 21495]%N ++ runes_of_ascii "`,
-    i32 Status `" ++ [29366; 24577]%N ++ runes_of_ascii "`,
-    string Msg `" ++ [32467; 26524; 20449; 24687]%N ++ runes_of_ascii "`,
-    repeat Detail,
-}
-
-packet Detail {
-    string RuleName `" ++ [35268; 21017; 21517; 31216]%N ++ runes_of_ascii "`,
-    u16 Code `" ++ [21407; 22240; 20195; 30721]%N ++ runes_of_ascii "`,
-}")).
-Eval vm_compute in ("<<<M83>>>" ++ check (runes_of_ascii "packet  A{
-@rightPad (
-' '
-)
-    // trailing space 
-    zchar[ 42
-    // 50% %s
-    ]MetaDataX , repeat
-int32 // 50% %s
-Logon ,leftPad string_// packet A { u8 x, }
-, @calculatedFrom(	""packet""
-    )
-char[ 3  ]
-    // 50% %s
-    Logon `{ , }` ,	match
-    crc as _x{65535:float, 00
-:
-    BodyLength [
-""" ++ [128512]%N ++ runes_of_ascii """
-    , // `tick` ""quote"" 'q'
-""a\\"" ,// packet A { u8 x, }
-""a\""b"" ,
-""// no comment"" ,  ""\n""
-    , 255	]
-    :
-    // c
-    MetaDataX ,0 : u8x}
-    , }	options { zchar = false; i64_
-= zchar[ 7
-    ] ; BodyLength =
-    ""1""	i8i8	= // @lengthOf(
-true
-; _x // packet A { u8 x, }
-= ""// no comment""
-; } packet //	t
-crc{
-match	As
-as zchar {0 : leftPad
-,
-[0 , 255 , """ ++ [233]%N ++ runes_of_ascii "t" ++ [233]%N ++ runes_of_ascii """, ""x y""
-    ,
-    ""`tick`"" ,  4294967296 , """ ++ [233]%N ++ runes_of_ascii "t" ++ [233]%N ++ runes_of_ascii """ //	t
-, """" ] :
-stringy [ 0 ,	""{,}"" , ""packet""
-    , 3
-,
-    65535
-,42 ,	""packet"",0 ]:A 00
-    : x }
-,  @tag(	42 )
-    match
-    chars as x {
-[ ""packet"" ,65535 ]
-://x
-T
-    ,
-""" ++ [28040; 24687]%N ++ runes_of_ascii """ : float ,
-""" ++ [28040; 24687]%N ++ runes_of_ascii """
-:packetx 0:
+Eval vm_compute in ("<<<M232>>>" ++ check (runes_of_ascii "// packet A { u8 x, }
+root packet rootA
+    {
+repeat char[]int
     /// triple
-    trueish ,""" ++ [128512]%N ++ runes_of_ascii """ :
-pack,} , // packet A { u8 x, }
-@calculatedFrom(""abc"" ) stringy
-pack , }
-    packet msg_type
-{ }
-")).
-Eval vm_compute in ("<<<M158>>>" ++ check (runes_of_ascii "packet
-MetaDataX
-    { A
-    // @lengthOf(
-    @lengthOf( leftPad )
-`// not a comment`, @leftPad( '0' ) zchar[255 ] metadata `tab	here` ,  match Packet
-as x_y_z
-{
-0123456789 :	o ,	007 :
-// 50% %s
-// " ++ [128512]%N ++ runes_of_ascii " emoji
-float, 0: pack,
-42:
-i8i8
-,
-[  3	]
-/// triple
-//x
-: BodyLength , },@lengthOf(
-    // " ++ [128512]%N ++ runes_of_ascii " emoji
-    repeatCount ) match stringy as
-rootA
-{ 00
-// " ++ [128512]%N ++ runes_of_ascii " emoji
-//	t
-: /// triple
-x, 10:  Z9_ /// triple
-,4294967296 : crc , 00	:
-    _x
-, } ,
-repeat x{	uint32	int , repeat string_ metadata, }
-    // " ++ [128512]%N ++ runes_of_ascii " emoji
-    ,@leftPad( ' ' )
-    repeat zchar[ 007]	falsey `tab	here` ,
-    // trailing space 
-    @leftPad	( )	rootA @lengthOf( T)
-, }
-root packet f32a//x
-{ As @calculatedFrom( ""abc""
-) `// not a comment`, }  packet Z9_{ match // " ++ [128512]%N ++ runes_of_ascii " emoji
-falsey as  string_ {""a	b"":  trueish,
-[ 255 , 007
-    ]
-    : falsey
-    """ ++ [28040; 24687]%N ++ runes_of_ascii """ : Header , 00 : /// triple
-string_
-    00
-:	metadata } ,
-    } root
-    packet string_ { repeat int8 T , } 	 ")).
-Eval vm_compute in ("<<<M1744>>>" ++ check (runes_of_ascii "
-// @lengthOf(
-	  packet	x_y_z
-{  float32 T
-
-    @lengthOf(
-
-    int	)// c
-,
-
-@tag(  //	t
-
-  255
-    ) @calculatedFrom(
-	""\n"")
-
-lengthOf
-
-    { repeat	Packet repeatCount  , } ,
-char[ 0
-	] body
-	`two words` ,	o 	 // a // b
-
-`a\` 
-,
-	@tag( 1
-
-    )repeat	Foo  lengthOf 	 //	t
-	, 
-repeat  lengthOf
-	{ string_
-@lengthOf( 
-    // packet A { u8 x, }
-
-// trailing space 
-x_y_z
-	    // " ++ [128512]%N ++ runes_of_ascii " emoji
-
-),	repeat 
-asx	{
-
-int16 float
-    @calculatedFrom(
-
-    ""CRC32""
-	) , },	//
-
-i8 leftPad
-	@calculatedFrom( ""\n"" )`// not a comment` ,
-
-},
-
-char[00
-
-    ] u	,match
-a1 
-as	roots
-// `tick` ""quote"" 'q'
-
-  // `tick` ""quote"" 'q'
-  	{ //
-		[ """ ++ [28040; 24687]%N ++ runes_of_ascii """,	""// no comment""
-
-, 	 /// triple
-  ""1"" ,0
-
-    ]// a // b
-	: calculatedFrom
-	,  }  ,
-	}
-options
-
-    { metadata
-
-=
-char[]}
-")).
-Eval vm_compute in ("<<<M75>>>" ++ check (runes_of_ascii "  options { _x =  '0'
-// a // b
-// packet A { u8 x, }
-; Logon =
-false	}packet
-    A {} packet //
-Logon
-{ @leftPad (
-' ' ) repeat	repeatCount { stringy  @lengthOf(
+    `it's` , string asx @calculatedFrom(""a\""b"") //x
+`tab	here`	, falsey `` , repeat string
+    metadata ``
+//
 // " ++ [27880; 37322]%N ++ runes_of_ascii "
-// trailing space 
-len // @lengthOf(
-)`say ""hi""`
-, repeat metadata
-    `u8 x,` , match x as
-    int { [ ""`tick`"",7
-] // trailing space 
-: BodyLength ,255 : packetx
-42 // " ++ [128512]%N ++ runes_of_ascii " emoji
-:
-_x ,} ,
-    } , @rightPad ('0' ) @leftPad
-    (	' ' )
-@tag(65535 ) Header
-    `{ , }`	,int16 // trailing space 
-stringy
-    @lengthOf( // " ++ [128512]%N ++ runes_of_ascii " emoji
-calculatedFrom  ),
-repeat MetaDataX {x_y_z ,	repeat //
-calculatedFrom o`doc`
-,string_ repeatCount , rootA {repeatCount
-@calculatedFrom(
-""\" ++ [233]%N ++ runes_of_ascii """) `tab	here`	,
-}
-    , },
-    }")).
-Eval vm_compute in ("<<<M1854>>>" ++ check (runes_of_ascii "
-
-  packet metadata 
-{
-	Header	// @lengthOf(
-    u128 ,
-}packet
-zchar
-
-{  /// triple
-    @tag(
-
-4294967296) @lengthOf(
-a1
-) 
-i8
-	_x
-`crlf
-line`	,	@lengthOf(
-
-_x
-	)match
-
-x_y_z  as 
-Packet
-
-    {
-
-0
-
-    : leftPad
-    ,	65535
-    : tag  00	: leftPad,	""a\\""  :
-Packet
-,	10
-    :
-o
-,
-    [	""CRC32""	] :
-float  // " ++ [128512]%N ++ runes_of_ascii " emoji
-		,
-    } ,match
-
-    stringy as  calculatedFrom { 
-""`tick`"" :
-rootA ,
-	""`tick`""
-    : 
-asx
-
-    // packet A { u8 x, }
-	/// triple
-    	,
-3 
-: 
-u128, 
-} , 
-@lengthOf( msg_type )
-    @tag(  10 ) // 50% %s
-
-	repeatCount
-    @lengthOf(	string_ ) `a\`, }
-
-")).
-Eval vm_compute in ("<<<M269>>>" ++ check (runes_of_ascii "options {stringy = 00//
-f32a= // " ++ [128512]%N ++ runes_of_ascii " emoji
-uint16 ;u8x = int64 ; // " ++ [27880; 37322]%N ++ runes_of_ascii "
-}
-root packet Header { body { // @lengthOf(
-string	repeatCount	@calculatedFrom( ""x y"") `// not a comment` ,
-    match roots as uint8x
-    { ""a\\"": T , } , repeat i64_ { trueish @lengthOf( x_y_z )`" ++ [28040; 24687; 31867; 22411]%N ++ runes_of_ascii "` , } , } , int64 Packet , match
-pack as
-zchar
-    {
-    ""it's""
-    : Header ,	[""a\\"" , 3] :calculatedFrom ,
-    00 : options1// packet A { u8 x, }
-, 0
-    // c
-    : u8x
-    [ 65535 , 0123456789]
-: float  255
-: uint8x,} ,	}
-    MetaData
-u {// a // b
-}
-")).
-Eval vm_compute in ("<<<M268>>>" ++ check (runes_of_ascii "packet x_y_z {repeat
-asx { falsey	@lengthOf( u )`100% of %d`
-    ,repeat
-matchKey { x_y_z@calculatedFrom(""a\\""
-// trailing space 
-// trailing space 
-)
-, i64
-// 50% %s
-//
-calculatedFrom @calculatedFrom( ""// no comment"" )  `{ , }` , }// 50% %s
-,
-// c
-//	t
-char[ // 50% %s
-007 ] Foo @calculatedFrom( ""abc""
-), }
-    , repeat
-    uint32 Pad, repeat Logon
-{
-Logon
-    {
-    char[] packetx @calculatedFrom(
-// " ++ [128512]%N ++ runes_of_ascii " emoji
-// `tick` ""quote"" 'q'
-""it's"" )
-`
-` ,
-}, i8 len, asx , } , }
-")).
-Eval vm_compute in ("<<<M1653>>>" ++ check (runes_of_ascii "  packet  NewOrder
-
-{
-
-    u32 qty, 
-}
-    packet 
-Cancel {
-
-u64 id ,
-	}	packet
-Business
-
-    {
-u8  Kind , match
-	Kind	as  Detail
-	{1
-
-    :NewOrder
-,
-
-2
-
-: Cancel  ,
-    },
-    } packet 
-TcpFrame
-    {	u8
-T
-,
-
-    match	T
-	as
-
-    Body
-{	1
-	:
-
-Business	, 
-} ,  } packet
-UdpFrame{ u8
-U ,
-    match	U as Body
-{
-	1 : 
-Business
-	, } ,
-Business	extra,}root
-	packet	Wire {
-
-    TcpFrame
-
-    ,UdpFrame
-
-    ,  } ")).
-Eval vm_compute in ("<<<M1342>>>" ++ check (runes_of_ascii "
-
-  packet
-Frame
-{
-
-    u8 HK, u8
-	BK , u8
-
-TK, match HK as Hdr { 1 :  HdrA
-,2
-    : 
-HdrB 
-,}
-	,  match	BK as	Body { 1 :
-BodyA,2
-	:
-
-    BodyB
-, } ,
-    match
-TK  as  Trl
-{1: TrlA
-	,
-}
-
-, }
-packet
-    HdrA
-
-{u8
-a
-
-,
-    }
-
-packet
-
-    HdrB {	u16 b
-,
-    }	packet
-BodyA {	u32
-    c , 
-} 
-packet	BodyB{
-
-u64 d
-    , }
-packet TrlA
-{u8	e , 
-} root packet Msg
-
-    { Frame
-, 
-u8
-
-    x  ,	} ")).
-Eval vm_compute in ("<<<M1672>>>" ++ check (runes_of_ascii "packet string_ {
-    @tag(4294967296)
-    repeat u `crlf
-        line`,
-    repeat zchar[0] BodyLength,
-    @tag(255)
-    int `say ""hi""`,
-    uint8x `u8 x,`,
-    @leftPad(' ' )
-    string MetaDataX @lengthOf(options1),
-    zchar[00] charz `" ++ [28040; 24687; 31867; 22411]%N ++ runes_of_ascii "`,
-    @calculatedFrom(""" ++ [128512]%N ++ runes_of_ascii """)
-    _x calculatedFrom,
-    uint8 packetx `it's`,
-    @leftPad( )
-    zchar[0] Foo `a\`,
-}")).
-Eval vm_compute in ("<<<M138>>>" ++ check (runes_of_ascii "packet falsey
-    { repeat f32 msg_type,
-    // `tick` ""quote"" 'q'
-    } options  {	x = false // trailing space 
-;//	t
-A = 0123456789	;
-}packet stringy { u128 int
-// @lengthOf(
-// @lengthOf(
-, } MetaData A { u16 o ,	A u8x
+,  match
+x
+    // @lengthOf(
+    as	chars{007 : lengthOf ""// no comment"" :o	,
+[ """ ++ [233]%N ++ runes_of_ascii "t" ++ [233]%N ++ runes_of_ascii """] //	t
+: len , [ 0123456789
     ,
-string roots , options1 u128 `line1
-line2` ,char[] msg_type
-``
-, roots rootA `{ , }` ,// @lengthOf(
-}")).
-Eval vm_compute in ("<<<M1798>>>" ++ check (runes_of_ascii "packet o {
-    @rightPad( '\x00')
-    @calculatedFrom(""a\""b"")
-    @rightPad( '0')
-    char[255] zchar @calculatedFrom(""\" ++ [233]%N ++ runes_of_ascii """),
-    char[10] _x `" ++ [28040; 24687; 31867; 22411]%N ++ runes_of_ascii "`,
-}
-
-options {
-}
-
-options {
-    Pad = '0';
-}
-
-packet i64_ {
-    repeat string zchar,
-    @calculatedFrom("""")
-    @lengthOf(Packet)
-    f32a,
-}")).
-Eval vm_compute in ("<<<M1454>>>" ++ check (runes_of_ascii "options {
-    LittleEndian = true;
-}
-
-packet Sub {
-    u8 a,
-    u16 SubSum @calculatedFrom(""CRC16""),
-}
-
-root packet Frame {
-    u16 MsgType,
-    u16 BodyLen @lengthOf(Body),
-    Sub Body,
-    string note,
-    u16 Checksum @calculatedFrom(""CRC16""),
-    u8 tail,
-}")).
-Eval vm_compute in ("<<<M432>>>" ++ check (runes_of_ascii "packet
-    asx { @calculatedFrom(
-""""  ) @tag( 255 )repeat repeat
-// packet A { u8 x, }
-// trailing space 
-int16 u8x
+    007 ,""" ++ [233]%N ++ runes_of_ascii "t" ++ [233]%N ++ runes_of_ascii """, // trailing space 
+42 , 0123456789
+, ""packet"" , 00	]
+    : x , } ,  match pack as int
+{ [ // a // b
+1
+    , ""a\""b""
 ,
-@tag(
-    //
-    007 )
-    @tag( 0
-    /// triple
-    ) @tag( 1) u
-    @lengthOf( T ),
-// `tick` ""quote"" 'q'
+    ""a\""b""	]:x
+,} ,
+} root packet	int
+    {
+char[10] len @lengthOf(	string_) , @calculatedFrom( ""1""
+) repeat
+    //	t
+    packetx {
+    char[ 42 ] Foo , a1 A  , repeat zchar[1  ] i8i8
+`a\` ,	zchar[
+4294967296 ]
+x_y_z@lengthOf( T )`` , }, char
+chars , repeat zchar[255 ] tag
+    `tab	here`
+,
+    @calculatedFrom(""it's"" //	t
+) // packet A { u8 x, }
+char[ 00 ] BodyLength
 //x
-} // " ++ [128512]%N ++ runes_of_ascii " emoji")).
-Eval vm_compute in ("<<<M447>>>" ++ check (runes_of_ascii "packet
-    asx { @calculatedFrom(
-""""  ) @tag( 255 )repeat
-// packet A { u8 x, }
-// trailing space 
-int16 u8x
-, ,
-@tag(
-    //
-    007 )
-    @tag( 0
+// " ++ [128512]%N ++ runes_of_ascii " emoji
+``  ,
+//	t
+/// triple
+} packet asx
+    {zchar[
+255	]x
+@lengthOf(
+int)
+, } MetaData repeatCount{a1 Logon , u8x As
+, char[
     /// triple
-    ) @tag( 1) u
-    @lengthOf( T ),
-// `tick` ""quote"" 'q'
-//x
-} // " ++ [128512]%N ++ runes_of_ascii " emoji")).
-Eval vm_compute in ("<<<M398>>>" ++ check (runes_of_ascii "packet
-    asx @calculatedFrom( {
-""""  ) @tag( 255 )repeat
-// packet A { u8 x, }
+    00	]// c
+metadata
+    `line1
+line2`, i32 Logon
+    `it's`,string falsey ,
+}
+    packet Z9_
 // trailing space 
-int16 u8x
-,
-@tag(
-    //
-    007 )
-    @tag( 0
-    /// triple
-    ) @tag( 1) u
-    @lengthOf( T ),
-// `tick` ""quote"" 'q'
-//x
-} // " ++ [128512]%N ++ runes_of_ascii " emoji")).
-Eval vm_compute in ("<<<M545>>>" ++ check (runes_of_ascii "packet
-    asx { @calculatedFrom(
-""""  ) @tag( 255 )repeat
-// packet A { u8 x, }
-// trailing space 
-int16 a" ++ [769]%N ++ runes_of_ascii "b
-,
-@tag(
-    //
-    007 )
-    @tag( 0
-    /// triple
-    ) @tag( 1) u
-    @lengthOf( T ),
-// `tick` ""quote"" 'q'
-//x
-} // " ++ [128512]%N ++ runes_of_ascii " emoji")).
-Eval vm_compute in ("<<<M504>>>" ++ check (runes_of_ascii "packet
-    asx { @calculatedFrom(
-""""  ) @tag( 255 )repeat
-// packet A { u8 x, }
-// trailing space 
-int16 u8x
-,
-@tag(
-    //
-    007 )
-    @tag( 0
-    /// triple
-    ) @tag( 1) u
-    uint8 T ),
-// `tick` ""quote"" 'q'
-//x
-} // " ++ [128512]%N ++ runes_of_ascii " emoji")).
-Eval vm_compute in ("<<<M1671>>>" ++ check (runes_of_ascii "
-
-  // top
-  packet
-// c0
-  	orderItem
-{	// c2a
-  // c2b
-  u8// c3
-    a 
-, } 
-// c6
-root 
-  // c7
-    packet// c8a
-  // c8b
-  newOrder { 	 // c10
-	orderItem	,  
-  // c12
-
-  u8	x// c14a
-
-  // c14b
-	,	// c15
-	}
-
-")).
-Eval vm_compute in ("<<<M515>>>" ++ check (runes_of_ascii "packet
-    asx { @calculatedFrom(
-""""  ) @tag( 255 )repeat
-// packet A { u8 x, }
-// trailing space 
-int16 u8x
-,
-@tag(
-    //
-    007 )
-    @tag( 0
-    /// triple
-    ) @tag( 1) u
-    @lengthOf( T")).
-Eval vm_compute in ("<<<M134>>>" ++ check (runes_of_ascii "MetaData len
-{ x_y_z options1
-    `// not a comment` //
-,
-f32	msg_type
-    // " ++ [27880; 37322]%N ++ runes_of_ascii "
-    `
-` , char[]string_,} // c
-MetaData // `tick` ""quote"" 'q'
-packetx
+// " ++ [27880; 37322]%N ++ runes_of_ascii "
 {
-string
-u128 `say ""hi""`
-, }")).
-Eval vm_compute in ("<<<M647>>>" ++ check (runes_of_ascii "MetaData u
-    { } MetaData o
-{ float uint8x
-`100% of %d` ,repeatCount u8x, string_ leftPad
-, i32
-    Foo , int64 int64 x `two words` , calculatedFrom
-stringy `a\` ,
-}
-")).
-Eval vm_compute in ("<<<M579>>>" ++ check (runes_of_ascii "MetaData u
-    { } MetaData o
-u32 float uint8x
-`100% of %d` ,repeatCount u8x, string_ leftPad
-, i32
-    Foo , int64 x `two words` , calculatedFrom
-stringy `a\` ,
-}
-")).
-Eval vm_compute in ("<<<M553>>>" ++ check (runes_of_ascii "MetaData {
-    u } MetaData o
-{ float uint8x
-`100% of %d` ,repeatCount u8x, string_ leftPad
-, i32
-    Foo , int64 x `two words` , calculatedFrom
-stringy `a\` ,
-}
-")).
-Eval vm_compute in ("<<<M1511>>>" ++ check (runes_of_ascii "packet _x {
-    @calculatedFrom(""packet"")
-    char[] T `" ++ [28040; 24687; 31867; 22411]%N ++ runes_of_ascii "`,
-    @calculatedFrom(""" ++ [28040; 24687]%N ++ runes_of_ascii """)
-    f64 pack `" ++ [233]%N ++ runes_of_ascii "`,
-    @calculatedFrom(""a	b"")
-    repeat crc `100% of %d`,
-}")).
-Eval vm_compute in ("<<<M676>>>" ++ check (runes_of_ascii "MetaData u
-    { } MetaData o
-{ float uint8x
-`100% of %d` ,repeatCount u8x, string_ leftPad
-, i32
-    Foo , int64 x `two words` , calculatedFrom
-stringy  ,
-}
-")).
-Eval vm_compute in ("<<<M659>>>" ++ check (runes_of_ascii "MetaData u
-    { } MetaData o
-{ float uint8x
-`100% of %d` ,repeatCount u8x, string_ leftPad
-, i32
-    Foo , int64 x } , calculatedFrom
-stringy `a\` ,
-}
-")).
-Eval vm_compute in ("<<<M475>>>" ++ check (runes_of_ascii "packet
-    asx { @calculatedFrom(
-""""  ) @tag( 255 )repeat
-// packet A { u8 x, }
-// trailing space 
-int16 u8x
-,
-@tag(
-    //
-    007 )
-    @tag(")).
-Eval vm_compute in ("<<<M1853>>>" ++ check (runes_of_ascii "packet A {
-    match k as n {
-        [
-            ""a"", ""bb"", 007, ""d"", ""e"",
-            66, ""g""
-        ] : B,
-        2 : C,
-    },
-}")).
-Eval vm_compute in ("<<<M54>>>" ++ check (runes_of_ascii "// trailing space 
-packet
-stringy
-{	repeat char[]  roots , @leftPad
-    //x
-    (// c
-' '  )char T `// not a comment`
-    ,//
-}
-")).
-Eval vm_compute in ("<<<M528>>>" ++ check (runes_of_ascii "packet
-    asx { @calculatedFrom(
-""""  ) @tag( 255 )repeat
-// packet A { u8 x, }
-// trailing space 
-int16 u8x
-,
-@tag(
-")).
-Eval vm_compute in ("<<<M1201>>>" ++ check (runes_of_ascii "// c
-options { } options { MetaDataX = char ; } MetaData Pad { i8 metadata , string stringy , int8 As `{ , }` , }")).
-Eval vm_compute in ("<<<M1234>>>" ++ check (runes_of_ascii "options { } options { MetaDataX = char ; } MetaData Pad { i8 metadata ,
-// c
-string stringy , int8 As `{ , }` , }")).
-Eval vm_compute in ("<<<M374>>>" ++ check (runes_of_ascii "
-packet options1{
-repeat char[] A `" ++ [233]%N ++ runes_of_ascii "`
+options1
+{ u32
+    MetaDataX
+, char[ 1]
+// " ++ [128512]%N ++ runes_of_ascii " emoji
 //x
-// 50% %s
-, float rootA
-    ,  Foo ,
-    } root packet Z9_  {
-}
+x	@lengthOf( Header ) ,	repeatCount
+    /// triple
+    x_y_z, } ,	float ,
+repeat packetx Z9_,@rightPad (
+// trailing space 
+// trailing space 
+' ' ) asx
+{string	asx @lengthOf( uint8x // c
+),	packetx , char[ 007 ] metadata ,  } ,
+    }
 ")).
-Eval vm_compute in ("<<<M266>>>" ++ check (runes_of_ascii "options { /// triple
-msg_type =4294967296 ;
-chars  = 4294967296 ;}
-options{
+Eval vm_compute in ("<<<M1458>>>" ++ check (runes_of_ascii "  packet rootA
+
+{ 
+    // a // b
+
+// " ++ [128512]%N ++ runes_of_ascii " emoji
+  @tag( 00 ) match 
+i8i8
+    as
+f32a{ 
+0: 
+u8x
+    , [
+
+    ""a\\""
+]
+:
+    BodyLength ,
+[ ""{,}""] 
+:body
+,
+
+    4294967296
+    : options1 
+,  // c
+    ""CRC32"" :	A 
+,	}  
+      // c
+
+	// " ++ [27880; 37322]%N ++ runes_of_ascii "
+	,	Logon 
+@lengthOf(T
+
+    )  , @lengthOf(stringy ) char[	0123456789
+    ]zchar
+,zchar[
+    1  ]
+
+i8i8 
+`it's`	,
+	@calculatedFrom(  
+      // 50% %s
+  // packet A { u8 x, }
+  ""1"" )
+	// `tick` ""quote"" 'q'
+
+repeat
+zchar[
+	42
+
+]
+A
+
+    `u8 x,` , 
+i16 
+A
+    @calculatedFrom(//
+	""packet"" 
+    // " ++ [128512]%N ++ runes_of_ascii " emoji
+/// triple
+)
+
+,/// triple
+@lengthOf( MetaDataX )
+match 
+
+    // " ++ [27880; 37322]%N ++ runes_of_ascii "
+	falsey
+    as 
+repeatCount
+{
+	0123456789
+:
+
+T
+, }	,
+@leftPad
+(	// " ++ [27880; 37322]%N ++ runes_of_ascii "
+  	'\x00'  )
+	@rightPad
+    ( '0'
+
+    )  @tag(
+0
+)
+
+    repeat 
+len
+
+    {
+
+    trueish
+
+rootA  `" ++ [28040; 24687; 31867; 22411]%N ++ runes_of_ascii "`,
+char[
+7 ] 
+repeatCount
+	@calculatedFrom(
+
+""// no comment""
+	)
+
+    , 
+string_ @calculatedFrom(
+    ""it's""
+	)
+	,	}
+	,
+repeat
+
+    Header
+    `say ""hi""`	,
+
+    //x
+
+	//x
+    match
+    packetx as
+	Packet  {  [
+    ""`tick`"" ] :
+    asx	7 :
+	asx
+[""a\\""]  // `tick` ""quote"" 'q'
+: 	 /// triple
+		float, ""packet"" :  lengthOf
+""x y"": len 
+,	}
+	,}
+
+")).
+Eval vm_compute in ("<<<M376>>>" ++ check (runes_of_ascii "packet
+    rootA
+{
+// a // b
+// " ++ [128512]%N ++ runes_of_ascii " emoji
+@tag( 00
+) match i8i8 as	f32a{ 0
+: u8x	,[ ""a\\""]: BodyLength ,[""{,}"" ]: body
+,4294967296 : options1, // c
+""CRC32""
+: A
+    ,}
 // c
-//
-asx =
-    ""\n"" }
-")).
-Eval vm_compute in ("<<<M1179>>>" ++ check (runes_of_ascii "// top
+// " ++ [27880; 37322]%N ++ runes_of_ascii "
+,
+Logon
+    @lengthOf(
+T ) , @lengthOf( stringy)char[
+    0123456789]zchar ,	zchar[ 1] i8i8 `it's`, @calculatedFrom(
+// 50% %s
+// packet A { u8 x, }
+""1"" )
+    // `tick` ""quote"" 'q'
+    repeat zchar[
+42] A
+    `u8 x,` , i16 A @calculatedFrom( //
+""packet""
+// " ++ [128512]%N ++ runes_of_ascii " emoji
+/// triple
+) , /// triple
+@lengthOf( MetaDataX
+    ) match
+    // " ++ [27880; 37322]%N ++ runes_of_ascii "
+    falsey
+    as repeatCount { 0123456789:T, } ,@leftPad
+( // " ++ [27880; 37322]%N ++ runes_of_ascii "
+'\x00' ) @rightPad ( '0'
+) @tag(
+0 ) repeat len {
+trueish rootA`" ++ [28040; 24687; 31867; 22411]%N ++ runes_of_ascii "` ,
+    char[
+    7 ] repeatCount
+@calculatedFrom( ""// no comment""
+) , string_ @calculatedFrom( ""it's"" ) ,
+} , repeat Header `say ""hi""` ,
+//x
+//x
+match
+    packetx as Packet {[
+""`tick`""] :
+    asx 7	:
+    asx
+    [ ""a\\""	]// `tick` ""quote"" 'q'
+: /// triple
+float ,
+""packet"" :
+lengthOf ""x y"" : len , }  ,}")).
+Eval vm_compute in ("<<<M1154>>>" ++ check (runes_of_ascii "// top
 options
     // c0
 {
     // c1
-A
+uint8x
     // c2
 =
     // c3
-""// no comment""
+007
     // c4
-}
+;
     // c5
+lengthOf
+    // c6
+=
+    // c7
+i8
+    // c8
+;
+    // c9
+}
+    // c10
+packet
+    // c11
+i64_
+    // c12
+{
+    // c13
+@calculatedFrom(
+    // c14
+""1""
+    // c15
+)
+    // c16
+@tag(
+    // c17
+3
+    // c18
+)
+    // c19
+@lengthOf(
+    // c20
+rootA
+    // c21
+)
+    // c22
+repeat
+    // c23
+int8
+    // c24
+Packet
+    // c25
+`tab	here`
+    // c26
+,
+    // c27
+}
+    // c28
+packet
+    // c29
+_x
+    // c30
+{
+    // c31
+matchKey
+    // c32
+x
+    // c33
+`" ++ [28040; 24687; 31867; 22411]%N ++ runes_of_ascii "`
+    // c34
+,
+    // c35
+int32
+    // c36
+calculatedFrom
+    // c37
+`100% of %d`
+    // c38
+,
+    // c39
+@lengthOf(
+    // c40
+trueish
+    // c41
+)
+    // c42
+Packet
+    // c43
+,
+    // c44
+repeat
+    // c45
+f32
+    // c46
+o
+    // c47
+,
+    // c48
+}
+    // c49
 ")).
-Eval vm_compute in ("<<<M72>>>" ++ check (runes_of_ascii "
-root
-packet string_ {  }options { i64_ = '\x00'
-    ; Pad =
-int32 ; calculatedFrom = 255
-    }")).
-Eval vm_compute in ("<<<M1265>>>" ++ check (runes_of_ascii "
+Eval vm_compute in ("<<<M1837>>>" ++ check (runes_of_ascii "
+options {
+ArrayPrefixLenType
+=
+u32
+; 
+FixedStringPadFromLeft
+    =false  ;
+FixedStringPadChar	=
 
-  packet 
-Inner {u8  a	,  }  root
+'0'
+; }
+    packet Trade{ repeat
 
-    packet
-P  {  repeat
-Inner
+InVenue78{
+u16
+tag7 , repeat
 
-items
-    ,	u8	x
+InLastpx9	{  u8
+	pad0
+    ,
+    } ,
+    int64
+Tail  ,repeat
+InQty37 {
+    char[2  ] OrderId ,
+	zchar[
+	6
+] 
+lastPx
+    , int64	Qty
+,
+}, uint8
+Side2 ,}
 , }
+
+packet
+Logon { 
+repeat
+string
+venue,@rightPad
+
+(
+'\x00'	)
+char[ 3
+	]
+sym
+,
+    zchar[
+
+    9  ] count , zchar[ 7
+
+]	f1 ,
+Trade  ,
+	}	packet Logout
+
+{ }	root packet
+    Reject {
+int32 sym
+,u8
+Px  ,  u32
+Tail
+    @lengthOf(
+Body
+
+    ),
+
+match	Px 
+as Body { 184:
+
+Trade
+	,
+    173  : Logon
+
+    ,12 :	Logout  , }
+    ,
+u32 tag7 @calculatedFrom( ""CRC32""	)
+,
+}
 ")).
-Eval vm_compute in ("<<<M1886>>>" ++ check (runes_of_ascii "
+Eval vm_compute in ("<<<M1844>>>" ++ check (runes_of_ascii "  MetaData  trueish // " ++ [128512]%N ++ runes_of_ascii " emoji
+{ uint64
+Z9_
+`u8 x,` // packet A { u8 x, }
 
-  packet
-	A{ 
-Inner
+, zchar[3  ]
+tag	,
 
-{ match
+} root	packet  tag // " ++ [128512]%N ++ runes_of_ascii " emoji
+	{
 
-    k
+    Packet
+
+    chars, }packet
+	trueish
+    {
+@lengthOf(roots  ) string
+repeatCount
+	,
+	@calculatedFrom( ""1""  )	@leftPad// 50% %s
+	  ( '\x00' 
+)@tag(
+    3
+
+    ) 
+int16
+stringy
+, 
+    // `tick` ""quote"" 'q'
+@rightPad
+
+    ( 
+'0' )
+	@rightPad
+
+    ('\x00'
+
+    ) 
+
+    //
+
+// c
+    	@lengthOf(
+
+    x )repeat	trueish pack
+`a\`	, 
+len// " ++ [128512]%N ++ runes_of_ascii " emoji
+  ,
+    @tag( 
+3
+)  char
+
+packetx  ,	}// `tick` ""quote"" 'q'
+    packet u
+{  u64 options1	//	t
+
+  ,
+
+    } options {
+}
+")).
+Eval vm_compute in ("<<<M200>>>" ++ check (runes_of_ascii "packet charz {repeat i64_
+, trueish
+    {	repeat _x , repeatCount
+, repeat
+u16
+// " ++ [128512]%N ++ runes_of_ascii " emoji
+// a // b
+matchKey `
+` , trueish
+@lengthOf( Z9_)	,
+}
+, zchar[3
+    ]body	,
+    @rightPad // @lengthOf(
+(' ') body packetx `{ , }` , // packet A { u8 x, }
+repeat matchKey { uint8
+metadata
+    ``
+    // @lengthOf(
+    ,  trueish @calculatedFrom( ""abc"" )
+    ,
+}
+    , @lengthOf( packetx )	int32 uint8x`tab	here`,
+@rightPad//
+(
+) @rightPad ( ) f32a
+// " ++ [27880; 37322]%N ++ runes_of_ascii "
+// a // b
+,tag _x `a\` , } packet
+    a1 {
+@tag(4294967296 ) repeat
+    f32 a1 `line1
+line2` , }")).
+Eval vm_compute in ("<<<M142>>>" ++ check (runes_of_ascii "packet Header{ uint16 As @calculatedFrom(
+    ""CRC32"" )
+,float
+`doc`,char[	3
+] crc , //x
+repeat
+u32
+packetx , a1 @calculatedFrom(	""`tick`"") ,
+repeat rootA
+{
+    u8x
+`crlf
+line`
+, string x, }
+    , roots { char[	65535
+]len `100% of %d` // " ++ [27880; 37322]%N ++ runes_of_ascii "
+,u32	x_y_z
+,}
+    // @lengthOf(
+    ,
+    a1 { match zchar
 as
-    n {
-    [
+len  {
+    ""a\""b"" : roots , }	,uint32
+i64_ `// not a comment`
+,
+    repeat	x_y_z {
+u@calculatedFrom("""") , Packet
+    { char[ 00 ]
+msg_type , } ,
+} ,} ,options1 i8i8
+, string calculatedFrom, }
 
-1 ]	:
+")).
+Eval vm_compute in ("<<<M1960>>>" ++ check (runes_of_ascii "packet body {
+    @leftPad('\x00')
+    @tag(42)
+    @tag(65535)
+    repeat tag u `a\`,
+    Z9_,//	t
+    @tag(10)
+    //	t
+    // @lengthOf(
+    f32 msg_type `// not a comment`,
+    int16 matchKey @calculatedFrom(""a	b"") `it's`,
+}
+
+packet T {
+    zchar[7] matchKey,
+    falsey @lengthOf(stringy) `crlf
+    line`,
+}
+
+root packet options1 {
+    @calculatedFrom(""{,}"")
+    matchKey @calculatedFrom(""`tick`""),
+    zchar[0] stringy @lengthOf(int),
+}
+
+packet msg_type {
+}")).
+Eval vm_compute in ("<<<M1783>>>" ++ check (runes_of_ascii "options {
+    ArrayPrefixLenType = u64;
+    FixedStringPadFromLeft = true;
+    FixedStringPadChar = '0';
+}
+
+packet Order {
+}
+
+root packet Leg {
+    char[] Ref,
+    repeat Order,
+    f32 Acct,
+    @leftPad('0')
+    char[10] venue,
+    @rightPad('0')
+    char[3] seqNo,
+    repeat u64 Px,
+    u8 Flags,
+    u32 lastPx @lengthOf(Body),
+    match Flags as Body {
+        185 : Order,
+    },
+    u16 sym @calculatedFrom(""CRC32""),
+}")).
+Eval vm_compute in ("<<<M16>>>" ++ check (runes_of_ascii "packet pack {@rightPad (
+    '\x00' )	options1  ,repeat
+f32
+    Packet`u8 x,`
+, repeat  Logon { repeat
+    a1 {char[  0 ]
+    tag
+,
+u64 leftPad,
+    } // 50% %s
+, repeatCount ,repeat // packet A { u8 x, }
+BodyLength /// triple
+, }
+    , repeat char[] packetx,
+char[
+00]tag@lengthOf(o
+) , }packet matchKey { repeat As	u8x `it's` , }options{}MetaData
+string_
+{ msg_type
+    Z9_ `line1
+line2` ,} //x")).
+Eval vm_compute in ("<<<M141>>>" ++ check (runes_of_ascii "packet
+string_ { @tag( 4294967296 ) repeat u	`crlf
+line`
+    , repeat zchar[ 0
+    ]BodyLength
+    , @tag( 255	) int  `say ""hi""` ,uint8x`u8 x,` ,@leftPad(' ' ) string
+MetaDataX @lengthOf(
+options1)
+, zchar[00 // packet A { u8 x, }
+]  charz  `" ++ [28040; 24687; 31867; 22411]%N ++ runes_of_ascii "` ,@calculatedFrom(
+""" ++ [128512]%N ++ runes_of_ascii """
+) _x calculatedFrom ,uint8 //
+packetx
+    `it's` ,@leftPad ( ) zchar[ 0 ] Foo
+`a\` ,
+}
+")).
+Eval vm_compute in ("<<<M1953>>>" ++ check (runes_of_ascii "options {
+}
+
+root packet chars {
+    @rightPad('0')
+    chars f32a `say ""hi""`,
+    int16 u8x,
+    @tag(4294967296)
+    @rightPad()
+    u64 packetx @calculatedFrom(""it's""),
+    @calculatedFrom(""\n"")
+    o @calculatedFrom(""a\""b""),
+    Logon @lengthOf(BodyLength),
+}
+
+options {
+}
+
+MetaData zchar {
+    u64 MetaDataX `// not a comment`,
+}")).
+Eval vm_compute in ("<<<M1321>>>" ++ check (runes_of_ascii "
+
+  packet A{	u8  a,}	packet
+B {
+u16  b ,}
+
+packet
+
+C {  u32	c
+    ,
+} root
+packet M
+{	u16 
+Kc, u16 
+Kb,
+u16 Ka
+,
+
+    match Kc  as
+	X {	9 :
+A , 
+10 
+:
 
     B , 
+}  , 
+match
+
+Kb	as
+
+    Y{ 2  : C
+
+    ,
+	1
+    :
+A ,}
+,
+	match Ka
+
+    as Z { 1
+:
+
+B,  },
+A
+, B,  C
+
+,
+	}")).
+Eval vm_compute in ("<<<M68>>>" ++ check (runes_of_ascii "// a // b
+root packet
+    u { f64 //
+chars	@calculatedFrom( ""\n"" )
+, @lengthOf(msg_type//
+)x_y_z
+`
+`
+,
+// " ++ [27880; 37322]%N ++ runes_of_ascii "
+// `tick` ""quote"" 'q'
+repeat char[ 0123456789
+    ]f32a, repeat
+u8 u8x
+`u8 x,` , zchar[3	]
+// " ++ [128512]%N ++ runes_of_ascii " emoji
+// trailing space 
+x_y_z , x_y_z @lengthOf( len),}")).
+Eval vm_compute in ("<<<M417>>>" ++ check (runes_of_ascii "packet
+    asx { @calculatedFrom(
+""""  ) @tag( @tag( 255 )repeat
+// packet A { u8 x, }
+// trailing space 
+int16 u8x
+,
+@tag(
+    //
+    007 )
+    @tag( 0
+    /// triple
+    ) @tag( 1) u
+    @lengthOf( T ),
+// `tick` ""quote"" 'q'
+//x
+} // " ++ [128512]%N ++ runes_of_ascii " emoji")).
+Eval vm_compute in ("<<<M487>>>" ++ check (runes_of_ascii "packet
+    asx { @calculatedFrom(
+""""  ) @tag( 255 )repeat
+// packet A { u8 x, }
+// trailing space 
+int16 u8x
+,
+@tag(
+    //
+    007 )
+    @tag( 0
+    /// triple
+    ) @tag( 1 1) u
+    @lengthOf( T ),
+// `tick` ""quote"" 'q'
+//x
+} // " ++ [128512]%N ++ runes_of_ascii " emoji")).
+Eval vm_compute in ("<<<M433>>>" ++ check (runes_of_ascii "packet
+    asx { @calculatedFrom(
+""""  ) @tag( 255 )int16
+// packet A { u8 x, }
+// trailing space 
+repeat u8x
+,
+@tag(
+    //
+    007 )
+    @tag( 0
+    /// triple
+    ) @tag( 1) u
+    @lengthOf( T ),
+// `tick` ""quote"" 'q'
+//x
+} // " ++ [128512]%N ++ runes_of_ascii " emoji")).
+Eval vm_compute in ("<<<M426>>>" ++ check (runes_of_ascii "packet
+    asx { @calculatedFrom(
+""""  ) @tag( 255 repeat
+// packet A { u8 x, }
+// trailing space 
+int16 u8x
+,
+@tag(
+    //
+    007 )
+    @tag( 0
+    /// triple
+    ) @tag( 1) u
+    @lengthOf( T ),
+// `tick` ""quote"" 'q'
+//x
+} // " ++ [128512]%N ++ runes_of_ascii " emoji")).
+Eval vm_compute in ("<<<M1459>>>" ++ check (runes_of_ascii "// " ++ [27880; 37322]%N ++ runes_of_ascii "
+options {
+    calculatedFrom = '\x00'
+    packetx = """ ++ [28040; 24687]%N ++ runes_of_ascii """;
+    i8i8 = """ ++ [28040; 24687]%N ++ runes_of_ascii """;
+    body = '0'
+    falsey = 10
 }
-, }, }
-")).
-Eval vm_compute in ("<<<M991>>>" ++ check (runes_of_ascii "packet A {
-    u32 crc @calculatedFrom(""%d%s""),
-    @calculatedFrom(""%d%s"") u8 y,
+
+packet o {
+    calculatedFrom {
+        repeat zchar[0] a1,
+        char[] f32a `" ++ [28040; 24687; 31867; 22411]%N ++ runes_of_ascii "`,
+    },
+}// packet A { u8 x, }")).
+Eval vm_compute in ("<<<M1566>>>" ++ check (runes_of_ascii "packet Logon {
+    string user,
+}
+
+root packet Frame {
+    u8 K,
+    match K as Body {
+        1 : Logon,
+        2 : Logout,
+    },
+    Tail,
+}
+
+packet Logout {
+    u16 reason,
+}
+
+packet Tail {
+    u32 crc,
 }")).
-Eval vm_compute in ("<<<M914>>>" ++ check (runes_of_ascii "packet A { Inner { match k as n { [1,22,007,4,5,66,7,8,9,10,11,12] : B, }, }, }")).
-Eval vm_compute in ("<<<M369>>>" ++ check (runes_of_ascii "packet
-_x { }
-    root
-    packet leftPad { }
-options { Pad
-=	string ; }
+Eval vm_compute in ("<<<M227>>>" ++ check (runes_of_ascii "MetaData Header
+    // " ++ [128512]%N ++ runes_of_ascii " emoji
+    { trueish Pad ,
+} MetaData
+    Z9_ { char[] metadata , Header
+    A
+    ``, uint32 packetx, int16 uint8x ,
+    Header // packet A { u8 x, }
+leftPad , }
 ")).
-Eval vm_compute in ("<<<M788>>>" ++ check (runes_of_ascii "packet A {
+Eval vm_compute in ("<<<M490>>>" ++ check (runes_of_ascii "packet
+    asx { @calculatedFrom(
+""""  ) @tag( 255 )repeat
+// packet A { u8 x, }
+// trailing space 
+int16 u8x
+,
+@tag(
+    //
+    007 )
+    @tag( 0
+    /// triple
+    ) @tag(")).
+Eval vm_compute in ("<<<M632>>>" ++ check (runes_of_ascii "MetaData u
+    { } MetaData o
+{ float uint8x
+`100% of %d` ,repeatCount u8x, string_ leftPad
+, i32 i32
+    Foo , int64 x `two words` , calculatedFrom
+stringy `a\` ,
+}
+")).
+Eval vm_compute in ("<<<M698>>>" ++ check (runes_of_ascii "MetaData u
+    { } MetaData o
+{ float uint8x
+`100% of %d` ,repeatCount u8x, string_ leftPad
+, i32
+    Foo , int64 x `two words` , calculatedFrom
+@xstringy `a\` ,
+}
+")).
+Eval vm_compute in ("<<<M609>>>" ++ check (runes_of_ascii "MetaData u
+    { } MetaData o
+{ float uint8x
+`100% of %d` ,repeatCount `
+`, string_ leftPad
+, i32
+    Foo , int64 x `two words` , calculatedFrom
+stringy `a\` ,
+}
+")).
+Eval vm_compute in ("<<<M674>>>" ++ check (runes_of_ascii "MetaData u
+    { } MetaData o
+{ float uint8x
+`100% of %d` ,repeatCount u8x, string_ leftPad
+, i32
+    Foo , int64 x `two words` , calculatedFrom
+packet `a\` ,
+}
+")).
+Eval vm_compute in ("<<<M1831>>>" ++ check (runes_of_ascii "MetaData crc {
+    packetx repeatCount,
+    f32a As `line1
+        line2`,
+    crc len `line1
+        line2`,
+    zchar[0123456789] uint8x,
+    zchar[0] As,
+}")).
+Eval vm_compute in ("<<<M60>>>" ++ check (runes_of_ascii "MetaData len{ }packet int
+    {
+repeat
+    char[1 ] stringy,}// a // b
+packet MetaDataX { zchar[
+10]
+leftPad
+@calculatedFrom( ""// no comment"" )
+, }
+")).
+Eval vm_compute in ("<<<M1271>>>" ++ check (runes_of_ascii "  packet	B
+{u8
+    a 
+,  }  root packet
+
+    P{
+	u8
+	K ,u8 L
+
+    @lengthOf(	Body )
+,
+
+    match
+K 
+as 
+Body	{
+1
+
+:
+B	, }
+    ,
+} ")).
+Eval vm_compute in ("<<<M208>>>" ++ check (runes_of_ascii "MetaData uint8x{char msg_type `two words`, char[3 ] chars `say ""hi""`, zchar[
+007]
+zchar	,
+    // " ++ [128512]%N ++ runes_of_ascii " emoji
+    } // `tick` ""quote"" 'q'")).
+Eval vm_compute in ("<<<M1289>>>" ++ check (runes_of_ascii "
+options
+	{	LittleEndian
+	= true
+
+;
+
+}
+root
+
+packet 
+P
+    {
+	u16
+a, u32 Sum
+
+    @calculatedFrom( ""CRC32""
+    ) 
+,	}
+
+")).
+Eval vm_compute in ("<<<M256>>>" ++ check (runes_of_ascii "  packet u8x { } MetaData Pad { //
+trueish lengthOf // 50% %s
+,
+    }
+    root packet
+trueish {
+//
+// 50% %s
+}
+")).
+Eval vm_compute in ("<<<M1225>>>" ++ check (runes_of_ascii "options { } options { MetaDataX = char ; } MetaData Pad // c
+{ i8 metadata , string stringy , int8 As `{ , }` , }")).
+Eval vm_compute in ("<<<M892>>>" ++ check (runes_of_ascii "packet A {
   match k as n {
-    [""a"", ""bb"", ""c c""] : B
+    [""a"", ""bb"", ""c c"", ""d"", ""e"", ""f"", ""g"", ""h"", ""i"", ""j"", ""k""] : B
     2 : C
   },
 }")).
+Eval vm_compute in ("<<<M978>>>" ++ check (runes_of_ascii "packet A {
+    Inner {
+        u8 x `%%d%!`,
+        Deep {
+            u8 y `%%d%!`,
+        },
+    },
+}")).
+Eval vm_compute in ("<<<M1782>>>" ++ check (runes_of_ascii "packet
+A{ match
+    k as n{
+
+[ 1	,
+22
+,
+	007
+
+    ,
+4 , 5
+, 66 
+,7
+
+    ]
+
+:
+
+B 2: 
+C
+    } ,}")).
+Eval vm_compute in ("<<<M881>>>" ++ check (runes_of_ascii "packet A {
+  match k as n {
+    [1, ""bb"", 007, ""d"", 5, ""f"", 7, ""h"", 9, ""j""] : B
+    2 : C
+  },
+}")).
+Eval vm_compute in ("<<<M1694>>>" ++ check (runes_of_ascii "
+// top
+
+options  // c0
+	{// c1
+
+  A // c2
+    =// c3
+  ""// no comment""	// c4
+    }	// c5
+")).
+Eval vm_compute in ("<<<M934>>>" ++ check (runes_of_ascii "packet A {
+    B b `a
+    b
+  c`,
+    B `a
+    b
+  c`,
+    repeat B bs `a
+    b
+  c`,
+}")).
+Eval vm_compute in ("<<<M835>>>" ++ check (runes_of_ascii "packet A {
+  match k as n {
+    [""a"", ""bb"", 007, ""d"", ""e"", 66] : B
+    2 : C
+  },
+}")).
+Eval vm_compute in ("<<<M1934>>>" ++ check (runes_of_ascii "options {
+    FixedStringPadFromLeft = true;
+}
+
+root packet P {
+    char[4] z,
+}")).
+Eval vm_compute in ("<<<M825>>>" ++ check (runes_of_ascii "packet A {
+  match k as n {
+    [1, 22, 007, 4, 5, 66] : B
+    2 : C
+  },
+}")).
+Eval vm_compute in ("<<<M349>>>" ++ check (runes_of_ascii "// `tick` ""quote"" 'q'
+options	{ stringy=""\" ++ [233]%N ++ runes_of_ascii """float= """ ++ [233]%N ++ runes_of_ascii "t" ++ [233]%N ++ runes_of_ascii """ trueish= u8 }
+")).
 Eval vm_compute in ("<<<M794>>>" ++ check (runes_of_ascii "packet A {
   match k as n {
     [1, 22, ""c c""] : B
     2 : C
   },
 }")).
-Eval vm_compute in ("<<<M781>>>" ++ check (runes_of_ascii "packet A {
+Eval vm_compute in ("<<<M783>>>" ++ check (runes_of_ascii "packet A {
   match k as n {
-    [1, ""bb""] : B
+    [""a"", 22] : B
     2 : C
   },
 }")).
-Eval vm_compute in ("<<<M1108>>>" ++ check (runes_of_ascii "packet A { // a
- @tag(1) u8 x, // b
- // c
- @tag(2) u8 y, }")).
+Eval vm_compute in ("<<<M1544>>>" ++ check (runes_of_ascii "packet A {
+    match k as n {
+        [1, 2] : B,
+    },
+}")).
 Eval vm_compute in ("<<<M1097>>>" ++ check (runes_of_ascii "// a
 MetaData M {} // b
 // c
 MetaData N {} // d
 // e")).
-Eval vm_compute in ("<<<M1864>>>" ++ check (runes_of_ascii "root packet P {
-    repeat char cs,
-    u8 x,
-}")).
-Eval vm_compute in ("<<<M963>>>" ++ check (runes_of_ascii "packet A {
-    u8 x `100% of %s %d %v`,
-}")).
-Eval vm_compute in ("<<<M1193>>>" ++ check (runes_of_ascii "options { A = ""// no comment"" } // c
+Eval vm_compute in ("<<<M41>>>" ++ check (runes_of_ascii "root
+packet
+msg_type
+    // 50% %s
+    {  }
 ")).
-Eval vm_compute in ("<<<M1111>>>" ++ check (runes_of_ascii "root // a
- packet // b
- A // c
- { }")).
-Eval vm_compute in ("<<<M739>>>" ++ check ([65533; 8; 65533; 65533]%N ++ runes_of_ascii "_" ++ [18]%N ++ runes_of_ascii "%" ++ [65533]%N ++ runes_of_ascii "." ++ [65533; 65533; 65533; 6]%N ++ runes_of_ascii "AR" ++ [31; 65533]%N ++ runes_of_ascii "rNi" ++ [1450; 22]%N ++ runes_of_ascii "tL9" ++ [0; 65533]%N ++ runes_of_ascii "A" ++ [65533]%N ++ runes_of_ascii "/")).
-Eval vm_compute in ("<<<M1531>>>" ++ check (runes_of_ascii "
-root packet
-
-a1
-{}  // c
-")).
-Eval vm_compute in ("<<<M1601>>>" ++ check (runes_of_ascii "
-
-  packet x { }
-
-// c
- 
-")).
-Eval vm_compute in ("<<<M767>>>" ++ check ([65533]%N ++ runes_of_ascii ">" ++ [65533; 3; 65533; 65533; 65533]%N ++ runes_of_ascii "z" ++ [29]%N ++ runes_of_ascii "(" ++ [646; 65533]%N ++ runes_of_ascii "5" ++ [65533]%N ++ runes_of_ascii "4_" ++ [65533; 15; 65533]%N ++ runes_of_ascii "i" ++ [65533; 65533]%N)).
-Eval vm_compute in ("<<<M1498>>>" ++ check (runes_of_ascii "MetaData Packet {
+Eval vm_compute in ("<<<M1601>>>" ++ check (runes_of_ascii "// c
+options {
+    A = ""// no comment""
 }")).
-Eval vm_compute in ("<<<M1071>>>" ++ check (runes_of_ascii "// c" ++ [65279]%N ++ runes_of_ascii "
+Eval vm_compute in ("<<<M204>>>" ++ check (runes_of_ascii "MetaData  matchKey
+{ char[] Foo , }")).
+Eval vm_compute in ("<<<M1971>>>" ++ check (runes_of_ascii "
+// c 	
+    packet
+A
+	{
+
+    }
+
+")).
+Eval vm_compute in ("<<<M1600>>>" ++ check (runes_of_ascii "packet A {
+    u8 x `d `,// c 
+}")).
+Eval vm_compute in ("<<<M1095>>>" ++ check (runes_of_ascii "MetaData M {
+}// c
+packet A {}")).
+Eval vm_compute in ("<<<M1771>>>" ++ check (runes_of_ascii "
+// c" ++ [12]%N ++ runes_of_ascii "
+  packet
+    A
+	{ }")).
+Eval vm_compute in ("<<<M1495>>>" ++ check (runes_of_ascii "  packet  Packet  { }
+")).
+Eval vm_compute in ("<<<M1081>>>" ++ check (runes_of_ascii "// c x
 packet A {
 }")).
-Eval vm_compute in ("<<<M1169>>>" ++ check (runes_of_ascii "packet x // c
-{ }")).
-Eval vm_compute in ("<<<M741>>>" ++ check (runes_of_ascii "u16 zchar {")).
-Eval vm_compute in ("<<<M724>>>" ++ check (runes_of_ascii "
-	 ")).
+Eval vm_compute in ("<<<M1070>>>" ++ check (runes_of_ascii "packet A {
+}
+// c" ++ [65279]%N)).
+Eval vm_compute in ("<<<M1167>>>" ++ check (runes_of_ascii "packet // c
+x { }")).
+Eval vm_compute in ("<<<M1614>>>" ++ check (runes_of_ascii "packet A {
+}")).
+Eval vm_compute in ("<<<M1064>>>" ++ check (runes_of_ascii "// c" ++ [8203]%N)).
